@@ -76,6 +76,9 @@ def regen_pins():
         if rc == 0:
             # the translated parts of the model (src/effector.rs -> Gen/EffectorGen.v; four string functions -> Gen/StrFnGen.v)
             rc, out, _ = sh([sys.executable, os.path.join(VERIF, "tools", "rs2coq.py"), os.path.join(COQ, "Gen", "EffectorGen.v")])
+        if rc == 0:
+            # Gen/Regex.v (trusted restatement of the regex crate) is re-validated against the real crate's answers
+            rc, out, _ = sh([sys.executable, os.path.join(VERIF, "tools", "rx_crate_examples.py")], timeout=1200)
     if rc != 0:
         raise RuntimeError("pins.py failed: " + out)
 
